@@ -1,4 +1,262 @@
-(* placeholder while the proofs are being written *)
-From Regal Require Import Model.Directive.
-Theorem c06_placeholder : True. Proof. exact I. Qed.
-Print Assumptions c06_placeholder.
+(* C06 — inline ignore directives suppress exactly the named rules, on the same line or the next one.
+   Only statements here; proofs live in Proofs/Directive.v.
+
+   Model (Model/Directive.v): [directive_names text] is the body of ast.ignore_directives for one comment
+   (trim_space, first "regal ignore:", `\s` removed, split on ","); [directive_entries cs] the map row+1 -> names
+   ([ignore_directives] adds the evaluation conflict two different entries for one row would raise);
+   [ignored v m] is main._ignored (lookup at the violation's row and row+1, title membership);
+   [report_filter] the `not _ignored(...)` filter of the report branches; [stringify]/[keys_to_numbers]/[carry] the
+   way the directives of every file reach the aggregate report through Go (JSON object keys are decimal strings);
+   [agg_ignored g v] the aggregate branches' lookup by the violation's file; [carry_overridden] Lint with
+   WithIgnoreDirectives.  Rule bodies and the parser are oracles: [raw], [comments] below. *)
+From Coq Require Import List Permutation NArith.
+From Regal Require Import Base.Str Model.Directive Proofs.Directive.
+Import ListNotations.
+Local Open Scope N_scope.
+
+(* ---- which violations are ignored --------------------------------------------------------------- *)
+
+(* For every set of comments that evaluates (no two different directives on one row) and every violation:
+   ignored  <->  some comment is a directive naming exactly the violation's title and sits on the violation's
+   row or on the row directly above it.  Violations without a location are never ignored. *)
+Theorem c06_ignored_iff :
+  forall (cs : list comment) (m : dirmap) (v : violation),
+  ignore_directives cs = DirOk m ->
+  (ignored v m = true <->
+   exists c ns r, In c cs /\ directive_names (c_text c) = Some ns /\ In (v_title v) ns /\
+                  v_row v = Some r /\ (c_row c = r \/ c_row c + 1 = r)).
+Proof. exact ignored_iff_lemma. Qed.
+Print Assumptions c06_ignored_iff.
+
+(* the parser yields at most one comment per row: the directives then always evaluate *)
+Theorem c06_distinct_rows_evaluate :
+  forall cs, NoDup (map c_row cs) -> ignore_directives cs = DirOk (directive_entries cs).
+Proof. exact distinct_rows_ok. Qed.
+Print Assumptions c06_distinct_rows_evaluate.
+
+(* Names: whatever precedes the marker (anything without ':'), then "regal ignore:", then a comma-separated
+   list whose items are names (printable ASCII other than ',') with arbitrary `\s` whitespace on both sides.
+   The directive names exactly these names, in order. *)
+Theorem c06_names_spelled :
+  forall (p : str) (segs ns : list str),
+  ~ In COLON p -> segs <> [] -> Forall2 spells segs ns ->
+  directive_names (p ++ MARKER ++ join [COMMA] segs) = Some ns.
+Proof. exact names_spelled_lemma. Qed.
+Print Assumptions c06_names_spelled.
+
+(* a comment that does not contain "regal ignore:" is no directive *)
+Theorem c06_not_a_directive :
+  forall text, (forall p rest, text <> p ++ MARKER ++ rest) -> directive_names text = None.
+Proof. exact not_a_directive. Qed.
+Print Assumptions c06_not_a_directive.
+
+(* Exact match: with one such directive comment on row [row], a violation is ignored iff its title IS one of
+   the names (byte-for-byte: a prefix of a name, or a name that is a prefix of the title, does not match) and
+   it sits on that row or the next one. *)
+Theorem c06_only_exact_names_match :
+  forall p segs ns row v,
+  ~ In COLON p -> segs <> [] -> Forall2 spells segs ns ->
+  let c := {| c_row := row; c_text := p ++ MARKER ++ join [COMMA] segs |} in
+  ignored v (directive_entries [c]) = true <->
+  In (v_title v) ns /\ (v_row v = Some row \/ v_row v = Some (row + 1)).
+Proof. exact only_exact_names_match. Qed.
+Print Assumptions c06_only_exact_names_match.
+
+(* ---- the filter ---------------------------------------------------------------------------------- *)
+
+(* reported = raw minus exactly the ignored ones: membership, and as multisets *)
+Theorem c06_filter_exact :
+  forall (raw : list violation) (m : dirmap),
+  (forall v, In v (report_filter raw m) <-> In v raw /\ ignored v m = false) /\
+  Permutation raw (report_filter raw m ++ filter (fun v => ignored v m) raw).
+Proof. intros raw m. split; [intros v; apply filter_exact_in | apply filter_exact_perm]. Qed.
+Print Assumptions c06_filter_exact.
+
+(* ---- string keys and back ------------------------------------------------------------------------ *)
+
+(* Go carries the row keys as decimal strings; util.keys_to_numbers restores the very same map *)
+Theorem c06_keys_roundtrip : forall m : dirmap, keys_to_numbers (stringify m) = m.
+Proof. exact keys_roundtrip_lemma. Qed.
+Print Assumptions c06_keys_roundtrip.
+
+(* ---- adding a directive -------------------------------------------------------------------------- *)
+
+(* A new line holding only the comment "#"++d (after any indentation) is inserted so that it becomes row r.
+   Hypotheses on the oracles, for this edit: the raw violations and the comments move with the text
+   (H_shift, H_shift_comments), at most one comment per row, and no directive sits on row r-1.
+   Then the report after the edit is the report before, minus precisely the violations on (old) row r whose
+   title is named, with every row >= r moved down by one -- as multisets. *)
+Theorem c06_insert_directive_effect :
+  forall (raw : list str -> list violation) (comments : list str -> list comment)
+         (ls : list str) (r : N) (indent d : str) (ns : list str),
+  directive_names d = Some ns ->
+  NoDup (map c_row (comments ls)) ->
+  let ls' := insert_line r (indent ++ HASH :: d) ls in
+  Permutation (raw ls') (map (shift_violation r) (raw ls)) ->
+  Permutation (comments ls') (insert_comment_line r d (comments ls)) ->
+  (forall c, In c (comments ls) -> c_row c + 1 = r -> directive_names (c_text c) = None) ->
+  Permutation (report raw comments ls')
+    (map (shift_violation r)
+         (filter (fun v => negb (at_row v r && str_in (v_title v) ns)) (report raw comments ls))).
+Proof. exact insert_above_effect. Qed.
+Print Assumptions c06_insert_directive_effect.
+
+(* consequences for the four placements: directly above row r removes the named violations of row r ... *)
+Theorem c06_directive_above_removes :
+  forall raw comments ls r indent d ns,
+  directive_names d = Some ns -> NoDup (map c_row (comments ls)) ->
+  let ls' := insert_line r (indent ++ HASH :: d) ls in
+  Permutation (raw ls') (map (shift_violation r) (raw ls)) ->
+  Permutation (comments ls') (insert_comment_line r d (comments ls)) ->
+  (forall c, In c (comments ls) -> c_row c + 1 = r -> directive_names (c_text c) = None) ->
+  forall v, v_row v = Some r -> In (v_title v) ns -> ~ In (shift_violation r v) (report raw comments ls').
+Proof. exact insert_above_removes. Qed.
+Print Assumptions c06_directive_above_removes.
+
+(* ... while a line inserted anywhere else (two lines above = row r-1, the line below = row r+1, ...) and a
+   directive not naming the title (another rule's name, a prefix of the name) leave the violation reported *)
+Theorem c06_directive_elsewhere_keeps :
+  forall raw comments ls q indent d ns,
+  directive_names d = Some ns -> NoDup (map c_row (comments ls)) ->
+  let ls' := insert_line q (indent ++ HASH :: d) ls in
+  Permutation (raw ls') (map (shift_violation q) (raw ls)) ->
+  Permutation (comments ls') (insert_comment_line q d (comments ls)) ->
+  (forall c, In c (comments ls) -> c_row c + 1 = q -> directive_names (c_text c) = None) ->
+  forall v, In v (report raw comments ls) ->
+  (v_row v <> Some q \/ ~ In (v_title v) ns) -> In (shift_violation q v) (report raw comments ls').
+Proof.
+  intros raw comments ls q indent d ns Hd Hnd ls' H1 H2 H3 v Hin [Hrow|Hn].
+  - exact (insert_elsewhere_keeps raw comments ls q indent d ns Hd Hnd H1 H2 H3 v Hin Hrow).
+  - exact (insert_unnamed_keeps raw comments ls q indent d ns Hd Hnd H1 H2 H3 v Hin Hn).
+Qed.
+Print Assumptions c06_directive_elsewhere_keeps.
+
+(* The comment " #"++d is appended to the end of row r, which had no comment.  It covers row r and row r+1
+   (it is "on the line directly above" row r+1): precisely the named violations on these two rows go. *)
+Theorem c06_append_directive_effect :
+  forall (raw : list str -> list violation) (comments : list str -> list comment)
+         (ls : list str) (r : N) (d : str) (ns : list str),
+  directive_names d = Some ns ->
+  NoDup (map c_row (comments ls)) ->
+  let ls' := append_to_line r (32 :: HASH :: d) ls in
+  Permutation (raw ls') (raw ls) ->
+  (forall c, In c (comments ls) -> c_row c <> r) ->
+  Permutation (comments ls') (append_comment r d (comments ls)) ->
+  Permutation (report raw comments ls')
+    (filter (fun v => negb (str_in (v_title v) ns && (at_row v r || at_row v (r + 1))))
+            (report raw comments ls)).
+Proof. exact append_effect. Qed.
+Print Assumptions c06_append_directive_effect.
+
+(* Without the side condition on row r-1: the exact effect of a new comment line on row r.  A directive that
+   sat on row r-1 no longer covers the violation that moved from row r to r+1. *)
+Theorem c06_insert_directive_effect_general :
+  forall cs r d ns v,
+  directive_names d = Some ns -> NoDup (map c_row cs) ->
+  (ignored (shift_violation r v) (directive_entries (insert_comment_line r d cs)) = true <->
+   (exists c ns' r0, In c cs /\ directive_names (c_text c) = Some ns' /\ In (v_title v) ns' /\
+                     v_row v = Some r0 /\ (c_row c = r0 \/ (c_row c + 1 = r0 /\ r0 <> r))) \/
+   (v_row v = Some r /\ In (v_title v) ns)).
+Proof. exact ignored_after_insert_general. Qed.
+Print Assumptions c06_insert_directive_effect_general.
+
+(* ---- aggregate (cross-file) rules ----------------------------------------------------------------- *)
+
+(* One run over several files (names distinct), in any completion order: for an aggregate violation
+   located in file f the aggregate report applies exactly f's directives -- the same test as for per-file rules;
+   a violation located in no linted file (or without location) is not ignored. *)
+Theorem c06_aggregate_directives_carried :
+  forall (files : list (str * list comment)) (v : violation),
+  NoDup (map fst files) ->
+  (forall cs, In (v_file v, cs) files ->
+     agg_ignored (carry (file_results files)) v = ignored v (directive_entries cs)) /\
+  ((forall cs, ~ In (v_file v, cs) files) -> agg_ignored (carry (file_results files)) v = false).
+Proof. exact aggregate_directives_carried_lemma. Qed.
+Print Assumptions c06_aggregate_directives_carried.
+
+(* Regression witness: a run that reports on aggregates only and is given no directives (what the
+   aggregate-only run of the language server did before /repo 4817eed) ignores nothing. *)
+Theorem c06_aggregate_only_without_directives_refuted :
+  exists files v,
+    NoDup (map fst files) /\
+    agg_ignored (carry (file_results files)) v = true /\ agg_ignored [] v = false.
+Proof. exact aggregate_only_without_directives_refuted. Qed.
+Print Assumptions c06_aggregate_only_without_directives_refuted.
+
+(* with the exported directives handed on (WithIgnoreDirectives), any split into runs sees what one run sees *)
+Theorem c06_split_runs_directives_carried :
+  forall (parts : list (list (str * list comment))) files v,
+  NoDup (map fst files) -> Permutation (concat parts) files ->
+  agg_ignored (carry_overridden [] (merge_exported (map (fun p => carry (file_results p)) parts))) v =
+  agg_ignored (carry (file_results files)) v.
+Proof. exact two_phase_directives_lemma. Qed.
+Print Assumptions c06_split_runs_directives_carried.
+
+(* ---- non-vacuity ---------------------------------------------------------------------------------- *)
+
+Definition ex_text : str :=   (* " regal ignore: foo-bar ,\tline-length" *)
+  [32] ++ MARKER ++ [32;102;111;111;45;98;97;114;32;44;9;108;105;110;101;45;108;101;110;103;116;104].
+Definition ex_names : list str := [[102;111;111;45;98;97;114]; [108;105;110;101;45;108;101;110;103;116;104]].
+
+Example c06_names_nonvacuous : directive_names ex_text = Some ex_names.
+Proof. reflexivity. Qed.
+
+Example c06_spelled_nonvacuous :
+  exists p segs, ~ In COLON p /\ segs <> [] /\ Forall2 spells segs ex_names /\
+                 ex_text = p ++ MARKER ++ join [COMMA] segs.
+Proof.
+  exists [32], [[32;102;111;111;45;98;97;114;32]; [9;108;105;110;101;45;108;101;110;103;116;104]].
+  split; [intros [H|[]]; discriminate|]. split; [discriminate|]. split; [|reflexivity].
+  constructor; [|constructor; [|constructor]].
+  - exists [32], [32]. split; [reflexivity|]. repeat split; repeat constructor.
+  - exists [9], []. split; [reflexivity|]. repeat split; repeat constructor.
+Qed.
+
+(* "foo-bar" on row 7 with the directive on row 6: ignored; its prefix "foo-ba" and "foo-bar-baz": not;
+   the same title two rows below: not *)
+Example c06_ignored_nonvacuous :
+  let cs := [{| c_row := 6; c_text := ex_text |}] in
+  let v t r := {| v_cat := []; v_title := t; v_file := []; v_row := Some r; v_col := 1 |} in
+  NoDup (map c_row cs) /\
+  ignored (v [102;111;111;45;98;97;114] 7) (directive_entries cs) = true /\
+  ignored (v [102;111;111;45;98;97;114] 6) (directive_entries cs) = true /\
+  ignored (v [102;111;111;45;98;97] 7) (directive_entries cs) = false /\
+  ignored (v [102;111;111;45;98;97;114;45;98;97;122] 7) (directive_entries cs) = false /\
+  ignored (v [102;111;111;45;98;97;114] 8) (directive_entries cs) = false /\
+  ignored (v [102;111;111;45;98;97;114] 5) (directive_entries cs) = false.
+Proof. cbn zeta. split; [repeat constructor; intros []|]. repeat split; reflexivity. Qed.
+
+(* the hypotheses of the insertion theorem are met by a two-line module: three raw violations, the directive
+   " regal ignore:x" inserted as new row 2 removes the "x" violation of old row 2 and moves the "y" one *)
+Example c06_insert_nonvacuous :
+  let d := 32 :: MARKER ++ [120] in
+  let mk t r := {| v_cat := []; v_title := t; v_file := []; v_row := Some r; v_col := 1 |} in
+  let ls := [[97]; [98]] in
+  let raw (l : list str) :=
+    if Nat.eqb (length l) 2 then [mk [120] 1; mk [120] 2; mk [121] 2] else [mk [120] 1; mk [120] 3; mk [121] 3] in
+  let comments (l : list str) := if Nat.eqb (length l) 2 then [] else [{| c_row := 2; c_text := d |}] in
+  let ls' := insert_line 2 ([] ++ HASH :: d) ls in
+  directive_names d = Some [[120]] /\ NoDup (map c_row (comments ls)) /\
+  Permutation (raw ls') (map (shift_violation 2) (raw ls)) /\
+  Permutation (comments ls') (insert_comment_line 2 d (comments ls)) /\
+  (forall c, In c (comments ls) -> c_row c + 1 = 2 -> directive_names (c_text c) = None) /\
+  report raw comments ls = [mk [120] 1; mk [120] 2; mk [121] 2] /\
+  report raw comments ls' = [mk [120] 1; mk [121] 3].
+Proof.
+  cbn zeta. split; [reflexivity|]. split; [constructor|].
+  split; [vm_compute; apply Permutation_refl|]. split; [vm_compute; apply Permutation_refl|].
+  split; [intros c []|]. split; reflexivity.
+Qed.
+
+(* a two-file run: the directive of file "a" is seen by the aggregate report for a violation located in "a" *)
+Example c06_aggregate_nonvacuous :
+  let files := [([97], [{| c_row := 3; c_text := 32 :: MARKER ++ [120] |}]); ([98], [])] in
+  let v f := {| v_cat := []; v_title := [120]; v_file := f; v_row := Some 4; v_col := 1 |} in
+  NoDup (map fst files) /\
+  agg_ignored (carry (file_results files)) (v [97]) = true /\
+  agg_ignored (carry (file_results files)) (v [98]) = false /\
+  agg_ignored (carry_overridden [] (merge_exported (map (fun p => carry (file_results p)) [[nth 1 files ([], [])]; [nth 0 files ([], [])]]))) (v [97]) = true.
+Proof.
+  cbn zeta. split; [repeat constructor; [intros [H|[]]; discriminate | intros []]|].
+  repeat split; reflexivity.
+Qed.
